@@ -2,10 +2,10 @@
 
    1. registers      try_as_register (insns.py) over the regenerated REGISTER_NAMES; '%n'
    2. numbers        parser.number(): radix prefixes, trailing-dot decimal, bare octal, 8/9
-   3. grouping       ParenthesizedExpression.resolve ignores the bracket style
+   3. grouping       the bracket styles (evaluation: see Proofs/SpellingShared.v, on the shared evaluators)
    4. operands       RegisterModeOperandStub.encode (without hoisting): '(rN)', '@rN', ...
    5. synonyms       mnemonics documented as synonyms, looked up in the regenerated opcode table
-   6. word lists     '.word a, b' (metacommands.word) vs implicit list (Compiler.compile_word_list)
+   6. word lists     (on Model/Directives, see Proofs/SpellingShared.v)
 
    Strings are lists of code points (N).  Parser.regex compiles with re.I | re.ASCII (pinned by
    tools/gens/gen_spelling.py), so character classes are the ASCII ones below; [LUnmodelled]
@@ -282,48 +282,10 @@ Definition follow_ok (rest : str) : bool :=
   end.
 
 (* ------------------------------------------------------------------ 3. grouping *)
+(* the bracket styles of types.ParenthesizedExpression.  Evaluation is NOT modelled here: the C10
+   theorem about grouping is stated on Spec/Arith.eval and Model/ExprParse.meval (Proofs/SpellingShared.v),
+   the evaluators C05 is about. *)
 Inductive bracket := BParen | BAngle | BCaret (delim : N).
-
-Inductive expr :=
-| ENum (v : Z)
-| ESym (name : str)
-| EDot
-| EUn (op : N) (e : expr)
-| EBin (op : N) (a b : expr)
-| EGroup (br : bracket) (e : expr).
-
-Section Eval.
-Variable env : str -> res Z.
-Variable dot : res Z.
-Variable un : N -> Z -> res Z.
-Variable bin : N -> Z -> Z -> res Z.
-
-Fixpoint eval (e : expr) : res Z :=
-  match e with
-  | ENum v => Ok v
-  | ESym n => env n
-  | EDot => dot
-  | EUn op a => do x <- eval a; un op x
-  | EBin op a b => do x <- eval a; do y <- eval b; bin op x y
-  | EGroup _ a => eval a                       (* ParenthesizedExpression.resolve *)
-  end.
-End Eval.
-
-Fixpoint regroup (f : bracket -> bracket) (e : expr) : expr :=
-  match e with
-  | EUn op a => EUn op (regroup f a)
-  | EBin op a b => EBin op (regroup f a) (regroup f b)
-  | EGroup br a => EGroup (f br) (regroup f a)
-  | _ => e
-  end.
-
-Fixpoint ungroup (e : expr) : expr :=
-  match e with
-  | EUn op a => EUn op (ungroup a)
-  | EBin op a b => EBin op (ungroup a) (ungroup b)
-  | EGroup _ a => ungroup a
-  | _ => e
-  end.
 
 (* ------------------------------------------------------------------ 4. operands *)
 Inductive otree :=
@@ -393,7 +355,10 @@ End Operand.
 
 (* ------------------------------------------------------------------ 5. synonyms *)
 Open Scope string_scope.
-(* mnemonics documented as two names of one instruction (frozen list) *)
+(* mnemonics documented as two names of one instruction (frozen list).
+   callr / jmp is deliberately absent: both encode 0001xx, but the table writes them "0001ss" and "0001dd",
+   so the pattern *strings* differ (the rewrite rule 'synonym' only swaps identical strings);
+   that pair is covered by C01_synonyms. *)
 Definition synonym_pairs : list (string * string) :=
   [ ("halt", "hlt"); ("clnzvc", "ccc"); ("senzvc", "scc"); ("med", "med6x");
     ("bcc", "bhis"); ("bcs", "blo"); ("trap", "sys"); ("mns", "msn"); ("mns", "ldsc");
@@ -418,22 +383,5 @@ Definition same_pattern (p : string * string) : bool :=
   end.
 
 (* ------------------------------------------------------------------ 6. word lists *)
-Section Words.
-Variable gai16 : Z -> res Z.          (* get_as_int(.., bitness=16, unsigned=False) *)
-
-Definition le16 (w : Z) : list Z := [(w mod 256)%Z; (w / 256 mod 256)%Z].
-
-(* returns (error identifiers reported, bytes).  A failing operand aborts (RecoverableError). *)
-Definition emit_word_directive (odd : bool) (vals : list Z) : res (list string * list Z) :=
-  do ws <- mapM gai16 vals;
-  let pre := if odd then ([ "odd-address"%string ], [0%Z]) else ([], []) in
-  match ws with
-  | [] => Ok (fst pre, (snd pre ++ [0%Z; 0%Z])%list)          (* '.word' alone = '.word 0' (+ warning) *)
-  | _ => Ok (fst pre, (snd pre ++ flat_map le16 ws)%list)
-  end.
-
-Definition emit_word_list (odd : bool) (vals : list Z) : res (list string * list Z) :=
-  do ws <- mapM gai16 vals;
-  let pre := if odd then ([ "odd-address"%string ], [0%Z]) else ([], []) in
-  Ok (fst pre, (snd pre ++ flat_map le16 ws)%list).
-End Words.
+(* not modelled here: '.word a, b' versus the implicit list is stated on Model/Directives
+   (emit (DWordList vs) = emit (DMeta ".word" (plain vs)), Proofs/SpellingShared.v), the model C06 is about. *)
